@@ -1,7 +1,9 @@
 //! Shared model of the typed core of GRL: values and stores, AST + printer, three-valued
 //! reference evaluator, generators, and the forward-engine runner.
 pub mod ast;
+pub mod cmp;
 pub mod eval;
 pub mod fwd;
 pub mod gen;
+pub mod layout;
 pub mod val;
